@@ -58,6 +58,9 @@ type sval struct {
 	// skLin
 	lbase  int64
 	lterms []linTerm
+	// skUnk: the unknown number is known to be at least one (the length of a
+	// buffer that already holds a non-empty literal)
+	minOne bool
 }
 
 type linTerm struct {
@@ -356,6 +359,8 @@ type semit struct {
 	readBytes bool
 	// interpreting a sizing function: integer helpers over the receiver are inlined
 	sizing bool
+	// the call whose result is the buffer's capacity, when it was located
+	sizingCall *ast.CallExpr
 }
 
 type oobCheck struct {
@@ -1546,6 +1551,10 @@ func (in *semit) refOf(st *sstate, e ast.Expr) (*sref, error) {
 		if err != nil {
 			return nil, err
 		}
+		// p[i] with p a pointer to an array: continue in what it points to
+		if bv, err := in.load(st, base); err == nil && bv.k == skPtr {
+			base = bv.ref
+		}
 		i, err := in.eval(st, x.Index)
 		if err != nil {
 			return nil, err
@@ -1775,6 +1784,27 @@ func (in *semit) eval(st *sstate, e ast.Expr) (sval, error) {
 					return conc(vInt(-v.c.I)), nil
 				}
 				return v, nil
+			}
+		case token.XOR:
+			// bitwise complement, within the width of the operand's type
+			v, err := in.eval(st, n.X)
+			if err != nil {
+				return sval{}, err
+			}
+			wdt := intWidth(info.TypeOf(n.X))
+			if v.k == skConc && v.c.K == VInt && wdt < 64 {
+				return conc(vInt(int64(^uint64(v.c.I) & (uint64(1)<<uint(wdt) - 1)))), nil
+			}
+			if v.k == skBits {
+				out := sval{k: skBits}
+				for i := 0; i < wdt && i < 64; i++ {
+					if i < len(v.bits) {
+						out.bits = append(out.bits, bNot(v.bits[i]))
+					} else {
+						out.bits = append(out.bits, &bform{op: "true"})
+					}
+				}
+				return out, nil
 			}
 		}
 		return sval{}, serr(e, "unary %s outside the emitter language", n.Op)
@@ -2236,6 +2266,25 @@ func (in *semit) evalBinary(st *sstate, n *ast.BinaryExpr) (sval, error) {
 		case token.ADD, token.SUB, token.MUL:
 			return sval{k: skUnk}, nil
 		}
+		// a positive unknown compared with 0
+		{
+			u, c, flip := a, b, false
+			if b.k == skUnk {
+				u, c, flip = b, a, true
+			}
+			if u.k == skUnk && u.minOne && c.k == skConc && c.c.K == VInt && c.c.I == 0 {
+				op := n.Op
+				if flip {
+					op = map[token.Token]token.Token{token.LSS: token.GTR, token.GTR: token.LSS, token.LEQ: token.GEQ, token.GEQ: token.LEQ, token.EQL: token.EQL, token.NEQ: token.NEQ}[op]
+				}
+				switch op {
+				case token.NEQ, token.GTR, token.GEQ:
+					return conc(vBool(true)), nil
+				case token.EQL, token.LSS, token.LEQ:
+					return conc(vBool(false)), nil
+				}
+			}
+		}
 		switch n.Op {
 		case token.EQL, token.NEQ, token.LSS, token.LEQ, token.GTR, token.GEQ:
 			// a test on a number the model does not follow (the sizing value):
@@ -2490,6 +2539,18 @@ func (in *semit) evalCall(st *sstate, n *ast.CallExpr) (sval, error) {
 				if v.k == skGet && semitLinearInts {
 					return sval{k: skLin, lterms: []linTerm{{lenOf: v.label}}}, nil
 				}
+				if v.k == skBuf && id.Name == "len" {
+					// an empty buffer has length 0; one that holds an unconditional
+					// non-empty literal has a positive length
+					if len(v.pieces) == 0 {
+						return conc(vInt(0)), nil
+					}
+					for _, pc := range v.pieces {
+						if pc.guard == nil && pc.label == "" && pc.lit != "" {
+							return sval{k: skUnk, minOne: true}, nil
+						}
+					}
+				}
 				if v.k == skGet || v.k == skBuf || v.k == skIte {
 					return sval{k: skUnk}, nil
 				}
@@ -2643,7 +2704,11 @@ func (in *semit) evalCall(st *sstate, n *ast.CallExpr) (sval, error) {
 	}
 	// a numeric helper over the receiver alone (the sizing function): its value
 	// can only size the buffer; it is interpreted on its own (sizingLinear)
-	if !in.sizing {
+	if !in.sizing && in.sizingCall != nil && n == in.sizingCall {
+		in.unkCalls = append(in.unkCalls, n)
+		return sval{k: skUnk}, nil
+	}
+	if !in.sizing && in.sizingCall == nil {
 		if sig, ok := fn.Type().(*types.Signature); ok && sig.Results().Len() == 1 {
 			if b, ok := sig.Results().At(0).Type().Underlying().(*types.Basic); ok && b.Info()&types.IsInteger != 0 && b.Kind() != types.Uint8 {
 				onlyRecv := (hasRecv && recv.k == skRecv) || len(args) > 0
@@ -2753,6 +2818,12 @@ func (p *Pkg) semanticEmitModel() (*EmitModel, error) {
 	if in.getFn == nil {
 		return nil, fmt.Errorf("no Get method")
 	}
+	// the call that sizes the buffer is located syntactically: only its value stays opaque
+	{
+		pre := &EmitModel{Fn: fd}
+		p.locateBuffer(pre)
+		in.sizingCall = pre.LenCall
+	}
 	st := &sstate{frames: []*sframe{{vars: map[types.Object]sval{}, fd: fd}}}
 	if ro := p.recvObj(fd); ro != nil {
 		st.top().vars[ro] = sval{k: skRecv}
@@ -2825,7 +2896,8 @@ func (p *Pkg) semanticEmitModel() (*EmitModel, error) {
 			first = false
 			// the header is the leading chunk when it is a named constant, or
 			// when further chunks separate it from the first value
-			if len(pend) > 0 && (headerConst(pend[0]) || len(pend) > 1) && em.Header == "" {
+			// (a version without a header only has one if a named constant is written first)
+			if len(pend) > 0 && (headerConst(pend[0]) || (len(pend) > 1 && vocab[p.Key].Header != "")) && em.Header == "" {
 				em.Header = pend[0].lit
 				em.HeaderPos = pend[0].at
 				pend = pend[1:]
@@ -3000,10 +3072,40 @@ func (p *Pkg) locateBuffer(em *EmitModel) {
 				c = d
 			}
 		}
+		// the buffer is made by a constructor helper `newBuf(capacity)`: the
+		// capacity is what Vector passes for that parameter
+		if o := identObj(info, c); o != nil && !(fd.Pos() <= em.MakeCall.Pos() && em.MakeCall.End() <= fd.End()) {
+			for _, h := range p.Funcs {
+				if h.Body == nil || !(h.Pos() <= em.MakeCall.Pos() && em.MakeCall.End() <= h.End()) {
+					continue
+				}
+				for k, po := range paramObjs(info, h) {
+					if po != o || assignedIn(info, h.Body, po) {
+						continue
+					}
+					ast.Inspect(fd.Body, func(n ast.Node) bool {
+						if call, ok := n.(*ast.CallExpr); ok && len(call.Args) > k {
+							if fn := calleeOf(info, call); fn != nil && p.FuncObj[fn] == h {
+								c = call.Args[k]
+								if ao := identObj(info, c); ao != nil {
+									if d, ok := def[ao]; ok {
+										c = d
+									}
+								}
+							}
+						}
+						return true
+					})
+				}
+			}
+		}
 		if call, ok := c.(*ast.CallExpr); ok {
 			if fn := calleeOf(info, call); fn != nil && fn.Pkg() == p.P.Types {
 				em.LenCall = call
 			}
+		}
+		if fd.Pos() <= c.Pos() && c.End() <= fd.End() {
+			em.CapExpr = c
 		}
 	}
 }
